@@ -12,9 +12,10 @@ import RV.C16.Model
 
   Choices a conformant writer has, all covered: quote character per literal; bare token or quoted
   form for xsd:integer / decimal / double / boolean literals whose lexical form is such a token;
-  backspace and form feed raw or as `\b` `\f`.
+  per character: backspace, form feed and the other quote character raw or as ECHAR (`\b` `\f` `\'` `\"`),
+  any character other than the quote, backslash, tab, LF, CR as UCHAR (`\uXXXX` / `\UXXXXXXXX`, either case).
   Not among the choices (see design.d/C16.md): a leading `+` on a bare number (rdflib's term
-  normalisation removes it from every literal), long quotes, `\uXXXX` escapes, `\'` inside `"…"`.
+  normalisation removes it from every literal), long quotes (`"""…"""`), `$name` in the header.
 
   Core-only imports: the driver executes `render` so that the harness' Python writer is tied to it.
 -/
@@ -24,19 +25,38 @@ open RV.C16
 structure CellChoice where
   sq : Bool := false            -- `'…'` instead of `"…"`
   short : Bool := false         -- bare token when allowed
-  chars : List Nat := []        -- per character: 0 = raw where allowed, otherwise escaped
+  chars : List Nat := []        -- per character, see `escChar`
   deriving Repr
 
 instance : Inhabited CellChoice := ⟨{}⟩
 
+def hexDigit (lower : Bool) (d : Nat) : Char :=
+  if d < 10 then Char.ofNat (48 + d) else Char.ofNat ((if lower then 87 else 55) + d)
+
+def hex4 (lower : Bool) (n : Nat) : Str :=
+  [hexDigit lower (n / 4096 % 16), hexDigit lower (n / 256 % 16), hexDigit lower (n / 16 % 16), hexDigit lower (n % 16)]
+
+/-- UCHAR: `\uXXXX` below U+10000, `\UXXXXXXXX` above -/
+def uchar (lower : Bool) (c : Char) : Str :=
+  if c.toNat < 65536 then '\\' :: 'u' :: hex4 lower c.toNat
+  else '\\' :: 'U' :: (hex4 lower (c.toNat / 65536) ++ hex4 lower (c.toNat % 65536))
+
+/-- the quote character that is not `q` -/
+def otherQuote (q : Char) : Char := if q = '"' then '\'' else '"'
+
+/-- one character of a quoted literal under choice `k`: 0 = raw where the grammar allows it,
+    1 = ECHAR where one exists, 2 / 3 = UCHAR with upper / lower case digits.  The quote itself and the
+    backslash are always ECHARs; tab, LF, CR always `\t` `\n` `\r` as the TSV format demands. -/
 def escChar (q : Char) (k : Nat) (c : Char) : Str :=
   if c = q then ['\\', q]
   else if c = '\\' then ['\\', '\\']
   else if c = '\t' then ['\\', 't']
   else if c = '\n' then ['\\', 'n']
   else if c = '\r' then ['\\', 'r']
+  else if 2 ≤ k then uchar (k == 3) c
   else if c = '\x08' then (if k = 0 then [c] else ['\\', 'b'])
   else if c = '\x0c' then (if k = 0 then [c] else ['\\', 'f'])
+  else if c = otherQuote q then (if k = 0 then [c] else ['\\', c])
   else [c]
 
 def escStr (q : Char) : List Nat → Str → Str
